@@ -355,8 +355,7 @@ Proof. exact pdr_model_fail_real_sys. Qed.
 Print Assumptions C10_pdr_model_fail_real_sys.
 
 Theorem C10_pdr_model_definite_sys :
-  forall (sy : sys), fin_class sy = true ->
-  forall (W : Type) (solve : nat -> query slit -> answer slit (sstate sy)) (gen_on : bool)
+  forall (sy : sys) (W : Type) (solve : nat -> query slit -> answer slit (sstate sy)) (gen_on : bool)
          (bmc_result : bmc_answer W) (fuel bf : nat),
     (forall n q, truthful slit slit_eqb (sstate sy) (slit_holds sy) (st_bad0 sy) (st_step0 sy) (st_trans sy) (st_bad sy)
                           q (solve n q)) ->
